@@ -283,6 +283,9 @@ class Tree:
     @classmethod
     def deserialize_mapper(cls, parent: Node, data: dict) -> str | object | None:
         """Used as default `mapper` argument for :meth:`load`."""
+        if "str" in data and not (set(data) - {"str", "data_id"}):
+            # Written by `save()` without a mapper for a str node with a custom data_id
+            return data["str"]
         raise NotImplementedError(
             f"Override this method or pass a mapper callback to evaluate {data}."
         )
